@@ -2,6 +2,7 @@ import TnVerif.Model.Basic
 import TnVerif.Model.Tensor
 import TnVerif.Model.Eval
 import TnVerif.Model.Arith
+import TnVerif.Model.Format
 /-
   Line-protocol driver (DESIGN §2.6).  One request per line on stdin, one answer per line on
   stdout.  Tokens are separated by blanks; numbers are integers or `p/q`.
@@ -155,6 +156,17 @@ def run (cmd : String) : PM String := do
   | "mul" => do let t ← pTensor; let u ← pTensor; return "ok " ++ showTensor (t.mul u)
   | "smul" => do let ρ ← pQ; let sg ← pQ; let t ← pTensor; return "ok " ++ showTensor (t.scalarMul ρ sg)
   | "sadd" => do let c ← pQ; let t ← pTensor; return "ok " ++ showTensor (t.scalarAdd c)
+  | "fullrank" => do
+      let shape ← pNatList
+      let a ← pArr shape.prod
+      return "ok " ++ showTensor (fullRankTT shape (fun k => a.getD k 0))
+  | "decomp" => do let t ← pTensor; return "ok " ++ showTensor t.decompAll
+  | "decompsome" => do
+      let bits ← pNatList
+      let t ← pTensor
+      return "ok " ++ showTensor (t.decompSome (bits.map (· != 0)))
+  | "tt" => do let t ← pTensor; return "ok " ++ showTensor t.tt
+  | "transpose" => do let t ← pTensor; return "ok " ++ showTensor t.transpose
   | _ => throw s!"unknown command {cmd}"
 
 def handle (line : String) : String :=
